@@ -1,3 +1,4 @@
+import MaestroVerif.Model.Env
 import MaestroVerif.Lemmas.ExpandPlace
 import MaestroVerif.Model.Expand
 import MaestroVerif.Lemmas.SubstLemmas
@@ -16,7 +17,7 @@ the real texts, including the cases outside that domain, it is evaluated by the
 tokenizer-based monitor.
 -/
 namespace MaestroVerif.C09
-open MaestroVerif.Subst
+open MaestroVerif.Subst MaestroVerif.Env
 
 /-- **Text that is not the token is left untouched**: if the token does not
 occur, a replacement pass returns the text unchanged. -/
@@ -227,5 +228,157 @@ theorem C09_workspace_recorded (spec : Spec) (ord : List Str → List Str) (st :
           fun k hk => by rw [wsOf_filter_append]; simp [hk]⟩
 
 end Workspace
+
+/-! ## the environment: which definitions are labels, and the order of the passes -/
+
+def Item.isVar : Item → Bool
+  | .var .. => true
+  | .dep .. => false
+
+/-- **What `add` does with a variable**: it is a label exactly when its value is a string that
+contains `$` and a substitution has been filed before; otherwise it is a substitution and from then
+on `$` is registered - whether its value is a string or a number. -/
+theorem C09_env_add_variable (e e' : Env) (n v : Str) (isStr : Bool)
+    (h : e.add (.var n v isStr) = some e') :
+    (isStr = true ∧ e.registered = true ∧ occurs dollar v = true →
+        e'.labels = e.labels ++ [(n, v)] ∧ e'.subs = e.subs ∧ e'.registered = e.registered) ∧
+    (¬(isStr = true ∧ e.registered = true ∧ occurs dollar v = true) →
+        e'.labels = e.labels ∧ e'.subs = e.subs ++ [(n, v)] ∧ e'.registered = true) := by
+  simp only [Env.add, Env.addVar] at h
+  split at h
+  · cases h
+  · split at h
+    · rename_i hc
+      simp only [Option.some.injEq] at h
+      subst h
+      simp only [Bool.and_eq_true] at hc
+      exact ⟨fun _ => ⟨rfl, rfl, rfl⟩, fun hn => absurd ⟨hc.1.1, hc.1.2, hc.2⟩ hn⟩
+    · rename_i hc
+      simp only [Option.some.injEq] at h
+      subst h
+      simp only [Bool.and_eq_true, not_and] at hc
+      refine ⟨fun hy => absurd hy.2.2 (by simpa using hc ⟨hy.1, hy.2.1⟩), fun _ => ⟨rfl, rfl, rfl⟩⟩
+
+theorem add_registered (e e' : Env) (it : Item) (h : e.add it = some e') :
+    e'.registered = (e.registered || (Item.isVar it && !e.registered)) ∨
+    e'.registered = (e.registered || Item.isVar it) := by
+  right
+  cases it with
+  | dep n p =>
+    simp only [Env.add, Env.addDep] at h
+    split at h
+    · cases h
+    · simp only [Option.some.injEq] at h; subst h; simp [Item.isVar]
+  | var n v isStr =>
+    simp only [Env.add, Env.addVar] at h
+    split at h
+    · cases h
+    · split at h
+      · rename_i hc
+        simp only [Option.some.injEq] at h; subst h
+        simp only [Bool.and_eq_true] at hc
+        simp [Item.isVar, hc.1.2]
+      · simp only [Option.some.injEq] at h; subst h; simp [Item.isVar]
+
+/-- **`$` is registered exactly when some variable - of any type - has been added**: the first
+variable is never a label (nothing is registered yet) and registers `$`. -/
+theorem C09_env_registered (items : List Item) (e : Env) (h : addAll items = some e) :
+    e.registered = items.any Item.isVar := by
+  unfold addAll at h
+  suffices H : ∀ (items : List Item) (a e : Env),
+      items.foldl (fun acc it => acc.bind (·.add it)) (some a) = some e →
+      e.registered = (a.registered || items.any Item.isVar) by
+    simpa [empty] using H items empty e h
+  intro items
+  induction items with
+  | nil => intro a e h; simp at h; subst h; simp
+  | cons it items ih =>
+    intro a e h
+    simp only [List.foldl_cons, Option.bind_some] at h
+    cases ha : a.add it with
+    | none =>
+      rw [ha] at h
+      have : ∀ l : List Item, l.foldl (fun acc it => acc.bind (·.add it)) (none : Option Env) = none := by
+        intro l; induction l with
+        | nil => rfl
+        | cons x xs ihx => simpa using ihx
+      rw [this] at h; cases h
+    | some a' =>
+      rw [ha] at h
+      rw [ih a' e h]
+      rcases add_registered a a' it ha with e1 | e1 <;> rw [e1] <;> simp [Bool.or_assoc] <;>
+        cases a.registered <;> cases Item.isVar it <;> simp
+
+/-- **Hence: in an environment built from a list of definitions, a string containing `$` is a label
+if and only if a variable was defined before it.**  (A `$`-string that comes first is a
+substitution: its own tokens are then resolved only if the entries they name come later.) -/
+theorem C09_env_label_iff (before : List Item) (e e' : Env) (n v : Str)
+    (hb : addAll before = some e) (h : e.add (.var n v true) = some e') (hv : occurs dollar v = true) :
+    ((n, v) ∈ e'.labels ∧ e'.subs = e.subs) ↔ before.any Item.isVar = true := by
+  have hr := C09_env_registered before e hb
+  have ha := C09_env_add_variable e e' n v true h
+  constructor
+  · intro ⟨_, hs⟩
+    cases hany : before.any Item.isVar with
+    | true => rfl
+    | false =>
+      exfalso
+      have hreg : e.registered = false := by rw [hr]; exact hany
+      have := (ha.2 (by simp [hreg])).2.1
+      rw [hs] at this
+      have hl := congrArg List.length this
+      simp at hl
+  · intro hy
+    have hreg : e.registered = true := by rw [hr]; exact hy
+    have := ha.1 ⟨rfl, hreg, hv⟩
+    exact ⟨by rw [this.1]; simp, this.2.1⟩
+
+/-- **The order of the passes**: labels first, then dependencies, then substitutions - each one
+`str.replace` pass per entry in the order of definition.  (With `C09_passes_simultaneous` for the
+passes of each group.) -/
+theorem C09_env_order (e : Env) (item : Str) (h : item ≠ []) :
+    e.apply item = pass e.subs (pass e.deps (pass e.labels item)) := by
+  unfold Env.apply
+  have : item.isEmpty = false := by simpa using h
+  simp [this]
+
+/-- **A label is resolved through**: where a text is just the label's token, the result is the
+label's own text with the dependencies and substitutions applied to it - the tokens a label brings
+in are replaced by the later passes. -/
+theorem C09_env_label_resolved (e : Env) (l lv : Str) (h : e.labels = [(l, lv)]) :
+    e.apply (tok l) = pass e.subs (pass e.deps lv) := by
+  rw [C09_env_order e (tok l) (by simp [tok]), h]
+  have := C09_replaces_occurrence [] (tok l) lv [] (by simp [tok]) (by intro pre post; right; simp)
+  simp only [List.nil_append, List.append_nil] at this
+  simp only [pass, List.foldl_cons, List.foldl_nil]
+  rw [this]
+  simp [replaceAll, replaceGo, tok]
+
+/-! non-vacuity: `N: 7` (a number) then `LBL: pre-$(N)-post` - the label is resolved; the same two
+definitions in the other order leave the label a substitution that is applied first, and `$(N)` is
+still resolved because `N` comes later; a `$`-string in front of everything is a substitution -/
+example : (match addAll [.var "N".toList "7".toList false, .var "LBL".toList "pre-$(N)-post".toList true] with
+    | some e => e.labels == [("LBL".toList, "pre-$(N)-post".toList)] && e.subs == [("N".toList, "7".toList)]
+        && e.apply "echo $(LBL)".toList == "echo pre-7-post".toList
+    | none => false) = true := by decide +kernel
+example : (match addAll [.var "LBL".toList "pre-$(N)-post".toList true, .var "N".toList "7".toList false] with
+    | some e => e.labels == [] && e.subs == [("LBL".toList, "pre-$(N)-post".toList), ("N".toList, "7".toList)]
+        && e.apply "echo $(LBL)".toList == "echo pre-7-post".toList
+    | none => false) = true := by decide +kernel
+example : addAll [.var "A".toList "1".toList false, .dep "A".toList "/p".toList] = none := by decide +kernel
+
+/-! ### an observation outside the property's stated domain (DESIGN, Correction 18)
+
+No variable at all, a label below a path dependency, then what `maestro run` adds itself: the label
+is filed as a substitution, the dependencies are applied before it, and `$(DEPDIR)` stays. -/
+theorem C09_observation_label_first :
+    (match addAll [.var "TOOL".toList "$(DEPDIR)/bin/tool".toList true, .dep "DEPDIR".toList "/tmp".toList,
+                   .var "OUTPUT_PATH".toList "/out".toList true] with
+     | some e => e.labels == [] && e.apply "$(TOOL) --version".toList == "$(DEPDIR)/bin/tool --version".toList
+     | none => false) = true ∧
+    (match addAll [.var "N".toList "3".toList false, .var "TOOL".toList "$(DEPDIR)/bin/tool".toList true,
+                   .dep "DEPDIR".toList "/tmp".toList] with
+     | some e => e.apply "$(TOOL) --version".toList == "/tmp/bin/tool --version".toList
+     | none => false) = true := by decide +kernel
 
 end MaestroVerif.C09
